@@ -223,7 +223,8 @@ def r08_2(ctx) -> None:
             v = ctx.vals.expr(enter, n.info.get("value"), n)
             ok = bool(v) and all(a[0] == "libinst" and a[1] == ctx.pkg.cls(SCOPED).fq for a in v if a[0] != "none")
             ctx.check(ok, "R08.2", enter, n, "the block receives the scoped wrapper", node=n, witness=str(sorted(v)))
-    made = [c for c in own_nodes(enter.node) if isinstance(c, ast.Call) and norm(c.func) == ctx.pkg.cls_name(SCOPED)]
+    made = [c for c in own_nodes(enter.node) if isinstance(c, ast.Call) and
+            norm(c.func.value if isinstance(c.func, ast.Subscript) else c.func) == ctx.pkg.cls_name(SCOPED)]  # (Cls[T](...) too)
     ctx.check(len(made) == 1 and [norm(a) for a in made[0].args] == [f"self.{raw_fields[0]}"] if raw_fields else False,
               "R08.2", enter, made[0] if made else "__aenter__", "the wrapper is built around the context's own iterator")
 
